@@ -7,6 +7,9 @@ import TeosVerif.Props.C13
 #print axioms Teos.C13.manual_retry_documented_states
 #print axioms Teos.C13.sendAll_accepted
 #print axioms Teos.C13.delivers_after_recovery
+#print axioms Teos.C13.finish_delivery
+#print axioms Teos.C13.reregistration_keeps_pending
+#print axioms Teos.C13.delivers_after_renewal
 #print axioms Teos.C13.run_returns_to_backoff
 #print axioms Teos.C13.gives_up_keeps_data
 #print axioms Teos.C13.unreachable_tower_not_contacted
